@@ -213,6 +213,14 @@ def run_case(case, ctx):
 					db = ReferenceDatabase.load_from_dir(dbdir)
 					query(db, [np.array(s, dtype=W.dtype) for s in W.query_sigs], classify_strict=step['strict'], chunksize=step['chunksize'])
 					events.append('ok_query')
+					if step.get('scribble') and len(db.signatures):
+						# the caller edits, in place, signatures it got from the database object (sub-sampling for an experiment):
+						# what it was handed are its own arrays, the files stay as they are
+						for obj_ in (db.signatures[0], db.signatures[0:len(db.signatures)], db.signatures[[len(db.signatures) - 1]]):
+							for arr_ in ([obj_] if isinstance(obj_, np.ndarray) else [getattr(obj_, 'values', None)]):
+								if isinstance(arr_, np.ndarray) and arr_.size and arr_.flags.writeable:
+									arr_[...] = 0
+						classes.add('returned_arrays_edited_in_place')
 					if step['keep_open']:
 						kept.append(('db', db))
 						classes.add('handles_kept_open')
@@ -412,7 +420,7 @@ STEP = st.one_of(
 	st.just({'t': 'cli_create_dbparams'}),
 	st.just({'t': 'cli_tree'}),
 	st.builds(lambda v: {'t': 'cli_bad', 'variant': v}, st.sampled_from(['missing_file', 'bad_option', 'no_input', 'both_inputs', 'sig_mismatch', 'not_fasta', 'dist_no_query'])),
-	st.builds(lambda s, c, k: {'t': 'lib_query', 'strict': s, 'chunksize': c, 'keep_open': k}, st.booleans(), st.sampled_from([1000, None, 1]), st.booleans()),
+	st.builds(lambda s, c, k, sc: {'t': 'lib_query', 'strict': s, 'chunksize': c, 'keep_open': k, 'scribble': sc}, st.booleans(), st.sampled_from([1000, None, 1]), st.booleans(), st.booleans()),
 	st.builds(lambda via, what, then, close: {'t': 'lib_edit', 'via': via, 'what': what, 'then': then, 'close': close},
 	          st.sampled_from(['load_genomeset', 'sessionmaker', 'refdb']), st.sampled_from(['attr', 'add', 'delete', 'gset', 'attr_then_delete', 'annotation_edit_delete']),
 	          st.lists(st.sampled_from(['flush', 'autoflush_query', 'commit', 'rollback']), min_size=1, max_size=4), st.booleans()),
